@@ -122,6 +122,11 @@ def rule_branch_table(ck: Check, repo: Repo, folder: Folder) -> None:
                 return "end_after_start"
             if t == f"{IDX_S} < {IDX_E}":
                 return "end_after_start"
+            # `>=` decides the same: equality means the first end marker stands directly in front of the first start marker
+            # (END...ENDSTART): cutting at the start and continuing behind that end marker continues AT the start marker, and
+            # the recursive call then does what the `rest` branch does - the kept text is the same in both readings
+            if t in (f"{IDX_E} >= {IDX_S}", f"{IDX_S} <= {IDX_E}"):
+                return "end_after_start"
             if re.fullmatch(r"REUSE_IGNORE_END in text\[.*\]", t):
                 return "end_in_rest"
             if t == IDX_E:
